@@ -1391,8 +1391,10 @@ class Array(RegisterObject):
 
         arg = type(self)._generic_arg_
 
-        start = arg.offset - self._global_offset_
-        stop = arg.end - self._global_offset_
+        # offsets of the elements are relative to the array,
+        # RegisterObject.__init__ adds the global offset of the array
+        start = 0
+        stop = arg.end - arg.offset
         step = arg.array_step
 
         elements = []
